@@ -33,8 +33,14 @@ INV = [1, 0, 3, 2, 5, 4]
 WRAPPERS = {"eq2gal": 1, "gal2eq": 2, "eq2ec": 3, "ec2eq": 4, "ec2gal": 5, "gal2ec": 6}
 
 
+# rules that keep their verdict however the code is laid out (decided by term equality, effect analysis or dominance over
+# resolved calls); every other rule of this check is a template rule (vcheck.core.Check.obt)
+SEMANTIC = ('R09.1', 'R09.3', 'R09.6', 'R09.8')
+
+
 def run(chk):
     repo = PyRepo()
+    chk.set_templates(repo, semantic=SEMANTIC)
     mp.mp.dps = 30
     chk.explanation = MANIFEST["text"]
     chk.trusted = ["sympy normaliser", "mpmath", "CPython ast"]
